@@ -22,7 +22,10 @@ VARIABLES k, v
 
 AB   == {0, 1, 64, 127, 128, 255}
 VolB == {0, 1, 127, 128, 129, 255, 256, 8191, 8192, 16383, 16384, 65535}
-TcB  == {0, 59, 127, 128}
+TcB  == {0, 127, 128}
+CmdB == {0, 1, 2, 62, 63, 64, 68, 71, 126, 127, 128, 255}
+TcBThorough  == {0, 59, 127, 128}            \* MC_UniversalSysex_thorough.cfg: TcB <- TcBThorough, CmdB <- CmdBThorough
+CmdBThorough == 0..255
 PX   == {0, 1, 2, 7, 126, 127, 128, 240, 247, 255}
 GmCh == 0..17 \cup {128, 255}
 Strs(S, n) == UNION { [1..m -> S] : m \in 0..n }
@@ -36,7 +39,7 @@ Vals(h, x) ==
     [] h = "nrt.gmsystem" -> {V(h, <<x, e>>, <<>>) : e \in {0, 1}}
     [] h \in {"nrt.identityrequest", "mmc.identity"} -> {V(h, <<x>>, <<>>)}
     [] h = "nrt.identityreply" -> {V(h, <<x>> \o r, <<>>) : r \in ReplyArgs}
-    [] h = "mmc.message" -> {V(h, <<x, c, r>>, d) : c \in 0..255, r \in {0, 1}, d \in {<<>>, <<1>>, <<6, 1, 0, 0, 0, 0, 0>>}}
+    [] h = "mmc.message" -> {V(h, <<x, c, r>>, d) : c \in CmdB, r \in {0, 1}, d \in {<<>>, <<1>>, <<6, 1, 0, 0, 0, 0, 0>>}}
     [] h = "mmc.goto" -> {V(h, <<x>> \o tc, <<>>) : tc \in [1..5 -> TcB]}
     [] h = "midi.sysex" -> {V(h, <<>>, <<>>)} \cup {V(h, <<>>, <<x>> \o s) : s \in Strs({0, 127, 128, 247}, 3)}
     [] h \in GmHelpers -> {V(h, <<ch, x>>, <<>>) : ch \in GmCh}
@@ -58,12 +61,18 @@ Perturb(b) == {[b EXCEPT ![p] = x] : p \in 1..Len(b), x \in PX}
 TypeOK == k = "val" => UxArgTypeOk(v.h, v.a, v.data)
 DomainExact == Ux /\ InDom => UxExact(v.h, v.a, v.data) /\ Canon(FALSE) = UxBuild(v.h, v.a, v.data) /\ Canon(TRUE) = Canon(FALSE)
 CanonAccepted == Ux => \A hi \in BOOLEAN :
-  /\ UxAccept(v.h, v.a, v.data, Canon(hi))
-  /\ (~Pat.raw => UxWellFormed(Canon(hi)))
-AcceptSound == Ux => \A c \in Perturb(Canon(FALSE)) \cup Perturb(Canon(TRUE)) :
-  UxAccept(v.h, v.a, v.data, c) => /\ (Pat.raw \/ UxWellFormed(c))
-                                    /\ Len(c) >= 2 /\ c[1] = 240 /\ c[Len(c)] = 247
-                                    /\ (InDom => c = Canon(FALSE))
+  LET c == Canon(hi) IN
+  /\ UxAccept(v.h, v.a, v.data, c)
+  /\ (~Pat.raw => UxWellFormed(c))
+AcceptSound == Ux =>
+  LET c0 == Canon(FALSE)
+      c1 == Canon(TRUE)
+      raw == Pat.raw
+      dom == InDom
+  IN \A c \in Perturb(c0) \cup Perturb(c1) :
+       UxAccept(v.h, v.a, v.data, c) => /\ (raw \/ UxWellFormed(c))
+                                         /\ Len(c) >= 2 /\ c[1] = 240 /\ c[Len(c)] = 247
+                                         /\ (dom => c = c0)
 StdClass == Ux /\ InDom /\ v.h # "midi.sysex" =>
   LET c == UxClass(Canon(FALSE))
       n == UxStdName(v.h, v.a)
